@@ -15,7 +15,7 @@
     independence from the hash-order oracles and from the output root. *)
 From Coq Require Import List NArith Bool Arith Permutation.
 From MWF Require Import Base.Str Base.Util Expand.PyStr Expand.Expand
-                        Expand.OrderFree Expand.OrderFree2 Expand.OrderFree3.
+                        Expand.OrderFree Expand.OrderFree2 Expand.OrderFree3 Expand.OrderFree4.
 Import ListNotations.
 
 (* ======================================================================== *)
@@ -84,6 +84,32 @@ Theorem C11_monitor_meaning :
   forall l : list xobs, C11_ok l = true <-> (forall a b, In a l -> In b l -> a = b).
 Proof. exact C11_ok_spec. Qed.
 Print Assumptions C11_monitor_meaning.
+
+(** the used-parameter set needs no oracle because it is only iterated through
+    [sorted(...)], and [sorted] is canonical: any two enumerations of the same
+    set sort to the same list ... *)
+Theorem C11_sorted_canonical :
+  forall l l' : list str, Permutation l l' -> str_sort l = str_sort l'.
+Proof. exact str_sort_perm. Qed.
+Print Assumptions C11_sorted_canonical.
+
+(** ... so the combination string (instance names, workspace components) and
+    the Params listing (record params, status column; Combination.get_param_values
+    since the repair fbb1b94) are the same for every enumeration [U'] of the
+    used-parameter set [U] *)
+Theorem C11_used_set_order_free :
+  forall (ps : list param) (U U' : list str) (i : nat), Permutation U U' ->
+    combo_string ps U i = combo_string ps U' i /\ param_values ps U i = param_values ps U' i.
+Proof. exact used_set_order_free. Qed.
+Print Assumptions C11_used_set_order_free.
+
+(** instance names under two used-parameter tables that enumerate the same sets *)
+Theorem C11_names_used_table_order_free :
+  forall (ps : list param) (um um' : usedmap) (x : str) (i : nat),
+    Forall2 (fun a b => fst a = fst b /\ Permutation (snd a) (snd b)) um um' ->
+    iname ps um x i = iname ps um' x i.
+Proof. exact iname_perm. Qed.
+Print Assumptions C11_names_used_table_order_free.
 
 (* ======================================================================== *)
 (** * Independence from the output root *)
@@ -235,6 +261,11 @@ Example C11_ex_relocated :
   | _, _ => False
   end.
 Proof. vm_compute. repeat split. Qed.
+
+(** sorting two enumerations of one set *)
+Example C11_ex_sorted : str_sort [s "SIZE"; s "ITER"; s "B2"] = str_sort [s "B2"; s "SIZE"; s "ITER"]
+                       /\ str_sort [s "SIZE"; s "ITER"; s "B2"] = [s "B2"; s "ITER"; s "SIZE"].
+Proof. vm_compute; auto. Qed.
 
 Example C11_ex_root_ok : root_ok (s "/R") = true /\ forallb plain_comp [s "gen"; s "k5.N.2"] = true.
 Proof. vm_compute; auto. Qed.
